@@ -4,11 +4,15 @@ import json, os, sys
 ROOT = os.path.dirname(os.path.dirname(os.path.abspath(__file__)))
 sys.path.insert(0, os.path.join(ROOT, "lib"))
 from props import PROPS
-from manifest_meta import META, NOT_APPLICABLE, HOOK_COMMITS
 
+HOOK_COMMITS = [l.split()[0] for l in open(os.path.join(ROOT, "MANIFEST.hooks")) if l.strip() and not l.startswith("#")]
+NA_FILE = os.path.join(ROOT, "props", "not_applicable.json")
+NA = json.load(open(NA_FILE)) if os.path.exists(NA_FILE) else {}
+_PENDING = "machinery for this property is still being built (plan in DESIGN.md section 9); not claimed until its check exists"
+NOT_APPLICABLE = [{"property_id": "C%02d" % i, "reason": NA.get("C%02d" % i, _PENDING)} for i in range(1, 21) if "C%02d" % i not in PROPS]
 checks = []
 for pid in sorted(PROPS):
-    m = META[pid]
+    m = PROPS[pid]['manifest']
     checks.append({
         "property_id": pid,
         "quick_cmd": "bin/check %s quick" % pid,
